@@ -30,6 +30,7 @@ import (
 type c11Addr struct {
 	ip, asn       int
 	relayed, noip bool
+	mapped        bool // textual form only: an IPv4 address written as /ip6/::ffff:a.b.c.d (same IP)
 }
 
 func (a c11Addr) flags() int64 {
@@ -39,6 +40,9 @@ func (a c11Addr) flags() int64 {
 	}
 	if a.noip {
 		f |= 2
+	}
+	if a.mapped {
+		f |= 4
 	}
 	return f
 }
@@ -184,6 +188,8 @@ func (e *c11Env) addrOf(p int, k int) ma.Multiaddr {
 		s, v6, _ := c11IP(a.ip)
 		if v6 {
 			base = fmt.Sprintf("/ip6/%s/tcp/%d", s, 1000+p*2+k)
+		} else if a.mapped {
+			base = fmt.Sprintf("/ip6/::ffff:%s/tcp/%d", s, 1000+p*2+k)
 		} else {
 			base = fmt.Sprintf("/ip4/%s/tcp/%d", s, 1000+p*2+k)
 		}
